@@ -94,3 +94,23 @@ Proof.
   intros array cfg N V t pz M K HN HV Hc Inv Hnd Hd Hr Hneg Hl Hs T' s h w Hv Hw.
   exact (C02_state_sufficient N T' M K HN (mem_table_TInv array cfg N V t pz M HN HV Hc Inv Hnd Hd Hr Hneg Hl Hs) s h w Hv Hw).
 Qed.
+
+(* ... and for the answers computed from the LOADED BINARY FILE (C04_file_table_invariants: the table decoded from the memory the trie
+   loader sets up over the bytes of the file the model writes satisfies TInv) *)
+From Kenlm Require Import C03.TrieImage C04.FileImage C04.TrieParse C04.TrieParseEnd C04.FileTables.
+Corollary C02_file_state_sufficient : forall (array : bool) cfg N V (t : atable) pz M K rest,
+  (2 <= N)%nat -> 0 <= V < 2 ^ 32 -> 0 <= cfg -> TInv N (alookup t) M -> NoDup (map fst t) ->
+  (forall w, alookup t [w] <> None <-> Z.of_N w < V) ->
+  (forall k e, alookup t k = Some e -> - 2 ^ 24 < e_prob e < 2 ^ 24 /\ - 2 ^ 24 < e_bo e < 2 ^ 24) ->
+  (forall k e, alookup t k = Some e -> (2 <= length k)%nat -> e_prob e <= 0) ->
+  (forall k e, alookup t k = Some e -> length k = N -> e_bo e = 0) ->
+  Z.of_nat (N * length t) < 2 ^ 57 ->
+  let T' := file_table array cfg N V (trie_counts N t) (trie_image array cfg N t pz ++ rest) in
+  forall s h w, valid N T' M s h -> T' [w] <> None ->
+  r_prob (fst (full_score N T' s w)) = r_prob (fst (full_score_forgot N T' K h w)) /\
+  snd (full_score N T' s w) = get_state N T' (w :: h) /\
+  valid N T' M (snd (full_score N T' s w)) (w :: h).
+Proof.
+  intros array cfg N V t pz M K rest HN HV Hc Inv Hnd Hd Hr Hneg Hl Hs T' s h w Hv Hw.
+  exact (C02_state_sufficient N T' M K HN (file_table_invariants array cfg N V t pz M rest HN HV Hc Inv Hnd Hd Hr Hneg Hl Hs) s h w Hv Hw).
+Qed.
